@@ -335,6 +335,56 @@ func c19(repo string, out *fg.Out) error {
 	}
 	fmt.Fprintf(L, "def jsonNonFiniteText : List Nat := %s\ndef jsonNullText : List Nat := %s\ndef jsonTrueText : List Nat := %s\ndef jsonFalseText : List Nat := %s\n",
 		natList([]byte(nonFinite)), natList([]byte(nullTxt)), natList([]byte(mm[1])), natList([]byte(mm[2])))
+	// BLOB / Decimal128 cells
+	if !strings.Contains(wtxt, "case *array.Binary:\n\t\t// A BLOB") && !regexp.MustCompile(`(?s)case \*array\.Binary:.*?writeJSONString\(w, scratch, blobText\(c\.Value\(row\)\)\)`).MatchString(wtxt) {
+		return fmt.Errorf("writeArrowValue: Binary case no longer writes blobText(c.Value(row))")
+	}
+	if !regexp.MustCompile(`(?s)case \*array\.Binary:[^}]*?writeJSONString\(w, scratch, blobText\(c\.Value\(row\)\)\)\s*case`).MatchString(wtxt) {
+		return fmt.Errorf("writeArrowValue: Binary case no longer writes exactly blobText(c.Value(row))")
+	}
+	if !regexp.MustCompile(`(?s)case \*array\.Decimal128:[^}]*?writeJSONString\(w, scratch, decimalText\(c\.Value\(row\)\.BigInt\(\), int\(c\.DataType\(\)\.\(\*arrow\.Decimal128Type\)\.Scale\)\)\)\s*default`).MatchString(wtxt) {
+		return fmt.Errorf("writeArrowValue: Decimal128 case changed")
+	}
+	bt := aj.FuncDecl("", "blobText")
+	if bt == nil {
+		return fmt.Errorf("blobText not found")
+	}
+	bm := regexp.MustCompile("(?s)const hexd = \"([^\"]*)\"\\s*out := make\\(\\[\\]byte, 0, len\\(b\\)\\)\\s*for _, c := range b \\{\\s*if c >= (\\d+) && c <= (\\d+)((?: && c != '(?:\\\\.|[^'])')*) \\{\\s*out = append\\(out, c\\)\\s*\\} else \\{\\s*out = append\\(out, ((?:'(?:\\\\.|[^'])', )+)hexd\\[c>>4\\], hexd\\[c&15\\]\\)\\s*\\}\\s*\\}\\s*return string\\(out\\)").FindStringSubmatch(aj.Text(bt.Body))
+	if bm == nil {
+		return fmt.Errorf("blobText: body changed: %s", aj.Text(bt.Body))
+	}
+	chars := func(txt string) ([]byte, error) {
+		var out []byte
+		for _, q := range regexp.MustCompile(`'(?:\\.|[^'])'`).FindAllString(txt, -1) {
+			u, err := strconv.Unquote(q)
+			if err != nil || len(u) != 1 {
+				return nil, fmt.Errorf("blobText: char literal %s", q)
+			}
+			out = append(out, u[0])
+		}
+		return out, nil
+	}
+	excl2, err := chars(bm[4])
+	if err != nil {
+		return err
+	}
+	pref, err := chars(bm[5])
+	if err != nil {
+		return err
+	}
+	if len(bm[1]) != 16 {
+		return fmt.Errorf("blobText: hexd has %d digits", len(bm[1]))
+	}
+	fmt.Fprintf(L, "def blobPrintLo : Nat := %s\ndef blobPrintHi : Nat := %s\ndef blobExcluded : List Nat := %s\ndef blobEscPrefix : List Nat := %s\ndef blobHexDigits : List Nat := %s\n",
+		bm[2], bm[3], natList(excl2), natList(pref), natList([]byte(bm[1])))
+	dtf := aj.FuncDecl("", "decimalText")
+	if dtf == nil {
+		return fmt.Errorf("decimalText not found")
+	}
+	wantDT := regexp.MustCompile(`\s+`).ReplaceAllString(`{ neg := unscaled.Sign() < 0 s := new(big.Int).Abs(unscaled).String() if scale > 0 { for len(s) <= scale { s = "0" + s } s = s[:len(s)-scale] + "." + s[len(s)-scale:] } if neg { s = "-" + s } return s }`, " ")
+	if got := regexp.MustCompile(`\s+`).ReplaceAllString(aj.Text(dtf.Body), " "); got != wantDT {
+		return fmt.Errorf("decimalText: body changed: %s", got)
+	}
 	saj := aj.FuncDecl("", "streamArrowJSON")
 	if saj == nil {
 		return fmt.Errorf("streamArrowJSON not found")
